@@ -693,7 +693,12 @@ func runCase(r *hx.Run, sub uint64, ops []string) {
 		}
 		res0, obs0 := h0.do(f)
 		res1, obs1 := h1.do(f)
-		if !wild {
+		if !wild || (sres != "panic" && res0 != "deadlock" && obs0 != "deadlock") {
+			// three-way also after the first stale handle: the Lean model is the same pointer program (Int len,
+			// bounded walks printing "cycle", sentinels shown as "?"), so it follows hive through corrupted rings
+			if wild {
+				r.Count("lean-lines:wild")
+			}
 			a, o := res0, obs0
 			if res1 != res0 {
 				a += " !other-flavour: " + res1
